@@ -53,6 +53,8 @@ pub struct HistProfile {
     pub binds: u32,
     /// choices also by raw index (possibly out of range, possibly while the story can continue)
     pub raw_choose: bool,
+    /// evaluate_function also on knots that are not functions (robustness checks only)
+    pub eval_knots: bool,
     pub max_ops: usize,
 }
 
@@ -72,6 +74,7 @@ impl Default for HistProfile {
             observe: 0,
             binds: 0,
             raw_choose: false,
+            eval_knots: false,
             max_ops: 14,
         }
     }
@@ -93,6 +96,7 @@ impl HistProfile {
             observe: 4,
             binds: 0,
             raw_choose: false,
+            eval_knots: false,
             max_ops: 16,
         }
     }
@@ -180,11 +184,26 @@ pub fn decode_history(tape: &[u16], meta: &Meta, hp: &HistProfile) -> Vec<HostOp
                     // functions first (names starting with the function prefix), else any knot
                     let funcs: Vec<&String> =
                         meta.knots.iter().filter(|k| k.contains('f')).collect();
-                    let name = if !funcs.is_empty() && !t.chance(1, 4) {
+                    let name = if !hp.eval_knots {
+                        // what the story itself calls as a function: evaluate_function is
+                        // documented for functions only (run on a knot that forks threads or
+                        // offers choices it leaves its frame on the call stack)
+                        let _ = t.chance(1, 4);
+                        if meta.functions.is_empty() {
+                            let _ = t.pick(1);
+                            String::new()
+                        } else {
+                            meta.functions[t.pick(meta.functions.len())].clone()
+                        }
+                    } else if !funcs.is_empty() && !t.chance(1, 4) {
                         funcs[t.pick(funcs.len())].clone()
                     } else {
                         meta.knots[t.pick(meta.knots.len())].clone()
                     };
+                    if name.is_empty() {
+                        ops.push(HostOp::Continue);
+                        continue;
+                    }
                     let nargs = t.pick(4);
                     let args = (0..nargs).map(|_| some_arg(&mut t)).collect();
                     HostOp::Eval { func: name, args }
